@@ -42,7 +42,7 @@ import (
 // generators
 
 var c19QuantityStrings = []string{"0", "1", "1m", "999m", "1000m", "1001m", "1500m", "0.5", "2", "3", "7", "64", "100", "1e3", "100M", "1Gi", "1073741825", "1536Mi", "15472384Ki",
-	"9007199254740991", "9007199254740993", "4611686018427387904", "16Gi", "85198045184", "4982162063", "0.001", "250m", "1k", "1Ki", "128974848", "129e6", "123Mi", "5G"}
+	"9007199254740991", "9007199254740993", "4611686018427387904", "16Gi", "85198045184", "4982162063", "0.001", "250m", "1k", "1Ki", "128974848", "129e6", "123Mi", "5G", "9223372036854775807", "8Ei", "1Ti", "0.1", "1.5", "1000000000000m", "1n", "999999999n", "1u"}
 
 func c19Quantity(r *kit.Rand) resource.Quantity {
 	switch r.Intn(5) {
@@ -148,6 +148,11 @@ func c19GenResourceStatus(r *kit.Rand) (*ResourceStatus, map[int]bool, string) {
 	st := &ResourceStatus{CPUSet: s}
 	k := kit.Pick(r, []int{0, 0, 1, 1, 2, 2, 3, 4, 8})
 	nodeIDs := r.Perm(16)
+	if r.Pct(10) {
+		for i := range nodeIDs {
+			nodeIDs[i] += kit.Pick(r, []int{64, 1000, 1 << 20}) // NUMA ids far from 0
+		}
+	}
 	if r.Bool() {
 		sort.Ints(nodeIDs[:k])
 	}
